@@ -86,20 +86,32 @@ fn session(p: &mut Prng, w: &mut World, pfx: &str, plan: &Plan, scripted: Option
     let klen = if scripted.is_some() {
         16
     } else if p.chance(1, 3) {
-        *p.pick(&[1usize, 16, 31, 32, 33, 64, 65, 96, 128, 160, 192])
+        *p.pick(&[1usize, 16, 31, 32, 33, 64, 65, 96, 128, 160, 192, 8160, 8161, 65535, 65536, 70000])
     } else {
         p.range(1, 200)
     };
     let (da, db) = match scripted {
         Some((da, db, _, _)) => (rsm2::hx(da), rsm2::hx(db)),
-        None => (scalar_class(p, &n).0, scalar_class(p, &n).0),
+        None => {
+            let a = scalar_class(p, &n).0;
+            // ... and, rarely, the same key pair on both sides
+            let b = if p.chance(1, 16) { a.clone() } else { scalar_class(p, &n).0 };
+            (a, b)
+        }
     };
     w.exec(set(&s("a.d"), &be32(&da)));
     w.exec(set(&s("b.d"), &be32(&db)));
     w.exec(json!({"op":"sm2.derive_pk","impl":"lib","d":s("a.d"),"pk":s("a.pk"),"comp":false}));
     w.exec(json!({"op":"sm2.derive_pk","impl":"lib","d":s("b.d"),"pk":s("b.pk"),"comp":false}));
     let ida = if scripted.is_some() { Some(b"1234567812345678".to_vec()) } else { id_class(p) };
-    let idb = if scripted.is_some() { None } else { id_class(p) };
+    // relations between the two parties' inputs: same identity on both sides (1 in 8)
+    let idb = if scripted.is_some() {
+        None
+    } else if p.chance(1, 8) {
+        ida.clone()
+    } else {
+        id_class(p)
+    };
     let mut idref = |w: &mut World, name: &str, v: &Option<Vec<u8>>| -> Value {
         match v {
             None => Value::Null,
